@@ -129,7 +129,9 @@ func boundaryShapes(thorough bool) []shape {
 // ---------------------------------------------------------------- variants
 
 var wayVariants = []string{"id=0", "id=-1", "id=2^40+9", "id=max", "id=min", "metadata", "updates", "spare-capacity", "nil-or-empty-slices", "bounds"}
-var relationVariants = []string{"id=0", "id=-1", "id=2^40+5", "id=max", "id=min", "metadata", "members=mixed", "members=2001", "nil-or-empty-slices"}
+var relationVariants = []string{"id=0", "id=-1", "id=2^40+5", "id=max", "id=min", "metadata", "members=mixed", "members=2001", "nil-or-empty-slices",
+	// the member list says nothing about whether a relation is an area: only the type tag does
+	"members=nodes-only", "members=relations-only", "members=nodes-and-relations", "members=one-way-last"}
 
 func variantID(v string, def int64) int64 {
 	switch v {
@@ -212,6 +214,14 @@ func applyRelationVariant(r *osm.Relation, v string) {
 		}
 	case "members=2001":
 		r.Members = toMembers(ring(2001, false))
+	case "members=nodes-only":
+		r.Members = osm.Members{{Type: osm.TypeNode, Ref: 7, Role: "admin_centre"}, {Type: osm.TypeNode, Ref: 8, Role: "label"}}
+	case "members=relations-only":
+		r.Members = osm.Members{{Type: osm.TypeRelation, Ref: 7, Role: "subarea"}}
+	case "members=nodes-and-relations":
+		r.Members = osm.Members{{Type: osm.TypeNode, Ref: 7, Role: "admin_centre"}, {Type: osm.TypeRelation, Ref: 8, Role: "subarea"}, {Type: osm.TypeRelation, Ref: 9, Role: "subarea"}}
+	case "members=one-way-last":
+		r.Members = osm.Members{{Type: osm.TypeNode, Ref: 7, Role: "label"}, {Type: osm.TypeRelation, Ref: 8, Role: "subarea"}, {Type: osm.TypeWay, Ref: 9, Role: "outer"}}
 	case "nil-or-empty-slices":
 		if len(r.Tags) == 0 {
 			r.Tags = nil
